@@ -79,7 +79,8 @@ Definition notify_deliveries (cbs : callbacks) (c : evclass) (p : Z) : Z :=
 (* the daemon's pools over time: Supervisor.add_process_group(config) builds the
    pool (which subscribes) unless the name exists; remove_process_group(name) on a
    stopped pool calls before_remove() (which unsubscribes) and forgets it *)
-Inductive wop := WAdd (p : Z) (pe : list evclass) | WRemove (p : Z).
+Inductive wop := WAdd (p : Z) (pe : list evclass) | WRemove (p : Z)
+  | WRemoveRefused (p : Z).   (* remove_process_group on a pool that still has unstopped processes: returns False, nothing changes *)
 
 Definition registry := list (Z * list evclass).
 
@@ -112,6 +113,7 @@ Definition wstep (w : world) (o : wop) : world :=
         | None => WorldError                        (* ValueError out of list.remove *)
         end
       end
+    | WRemoveRefused _ => w
     end
   end.
 
